@@ -14,7 +14,9 @@ PROPERTY_ID = "C19"
 LEVEL = "exploration"
 RULE = ("One case = one record (40..3000 bases, 3 of 4 circular) with 0-8 protoclusters (rule-like: symmetric "
         "neighbourhood, clipped at the ends of a linear record, whole-record [0:L) or the two-part L-1 form when the "
-        "neighbourhood meets itself; sideloaded: asymmetric neighbourhoods), 0-3 subregions (plain or sideloaded, "
+        "neighbourhood meets itself; sideloaded: asymmetric neighbourhoods; the core location is on the forward strand, "
+        "the reverse strand - its parts then in Biopython's reversed order when it spans the origin - or has strand 0 / "
+        "no strand, 3:3:1:1), 0-3 subregions (plain or sideloaded, "
         "optionally the whole record) and 0-12 genes (both strands, multi-exon, origin-spanning, genes lying in the "
         "intersection of two cores and marked as core genes of both products so that chemical hybrids form). All areas "
         "are drawn by construction on a window [0,W) with boundary-biased coordinates anchored at earlier edges "
@@ -49,9 +51,14 @@ _STATE: dict = {}
 
 # --------------------------------------------------------------------------- model helpers (pure)
 
+def _forward_parts(loc: dict) -> list:
+    """ the parts in the order of the genome (a reverse-strand location lists them the other way round) """
+    return list(reversed(loc["parts"])) if loc.get("strand") == -1 else loc["parts"]
+
+
 def _arc_of(loc: dict) -> tuple:
-    """ (start, length, crosses) of a forward-strand area location given in Biopython order """
-    parts = loc["parts"]
+    """ (start, length, crosses) of an area location given in Biopython order (reverse strand: parts reversed) """
+    parts = _forward_parts(loc)
     return parts[0][0], sum(e - s for s, e in parts), len(parts) == 2
 
 
@@ -519,14 +526,20 @@ def check_layout(spec: dict) -> dict:
                 origin_path = True
             if item.get("sideloaded"):
                 classes.append(f"sideloaded_{item['kind']}")
+            if item["kind"] == "protocluster" and item["core"].get("strand") != 1:
+                strand_name = {-1: "reverse", 0: "zero", None: "none"}[item["core"].get("strand")]
+                spanning = len(item["core"]["parts"]) == 2
+                classes.append(f"core_strand_{strand_name}{'_over_origin' if spanning else ''}")
+                if spanning and mode in ("cross", "whole"):
+                    classes.append(f"core_strand_{strand_name}_over_origin_{'shift' if mode == 'cross' else 'split'}")
         # areas that start out with the same four coordinates (extent and core; extent twice without a core)
         if mode in ("cross", "whole"):
             by_coordinates: dict = {}
             for item in items:
                 if len(item["loc"]["parts"]) != 2:
                     continue
-                core = item["core"] or item["loc"]
-                key = (item["loc"]["parts"][0][0], core["parts"][0][0], core["parts"][-1][1], item["loc"]["parts"][1][1])
+                core = _forward_parts(item["core"] or item["loc"])
+                key = (item["loc"]["parts"][0][0], core[0][0], core[-1][1], item["loc"]["parts"][1][1])
                 by_coordinates.setdefault(key, []).append(item["kind"])
             for kinds_seen in by_coordinates.values():
                 if len(kinds_seen) > 1:
@@ -676,14 +689,23 @@ def layouts(draw):
         c_end = point(c_start + 1, min(width, c_start + max(3, cap)))
         sideloaded = draw(st.integers(0, 3)) == 0
         core = _genome_arc(origin, length, c_start, c_end)
+        # the strand of the core location: a core derived from reverse-strand genes / read back from a core_location
+        # qualifier is on the reverse strand, its parts then come in Biopython's reversed order when it spans the
+        # origin (join{[0:20](-), [980:1000](-)}); strand 0 and no strand are accepted as well.  Only the core:
+        # CDSCollection insists on a forward surrounding location when that spans the origin.
+        core_strand = draw(st.sampled_from([1, 1, 1, -1, -1, -1, 0, None]))
+        if core_strand != 1:
+            core = {"parts": list(reversed(core["parts"])) if core_strand == -1 else core["parts"],
+                    "strand": core_strand}
         full = circular and width == length and not sideloaded and draw(st.integers(0, 5)) == 0
         if full:
-            if len(core["parts"]) == 2 and core["parts"][0][0] - core["parts"][1][1] >= 2:
-                first, last = core["parts"][0][0], core["parts"][1][1]
+            forward = _forward_parts(core)
+            if len(forward) == 2 and forward[0][0] - forward[1][1] >= 2:
+                first, last = forward[0][0], forward[1][1]
                 mid = (first - last) // 2 + last
                 loc = {"parts": [[mid, length], [0, mid - 1]], "strand": 1}
-            elif len(core["parts"]) == 2:
-                loc = {"parts": [list(p) for p in core["parts"]], "strand": 1}
+            elif len(forward) == 2:
+                loc = {"parts": [list(p) for p in forward], "strand": 1}
             else:
                 loc = {"parts": [[0, length]], "strand": 1}
             e_start, e_end = 0, width
@@ -735,7 +757,7 @@ def layouts(draw):
         return draw(st.sampled_from(crossing * 3 + list(range(len(pool)))))
 
     def copied(loc: dict) -> dict:
-        return {"parts": [list(part) for part in loc["parts"]], "strand": 1}
+        return {"parts": [list(part) for part in loc["parts"]], "strand": loc.get("strand", 1)}
 
     eager = 1 if shape == "whole" else 3
     if protoclusters and draw(st.integers(0, eager)) == 0:
@@ -824,6 +846,8 @@ REQUIRED_CLASSES = [f"adjust_{branch}_{how}" for branch in BRANCHES for how in (
     "region_plain", "subregions_only", "subregions_with_candidates", "single_candidate_hidden", "single_candidate_shown",
     "sideloaded_protocluster", "sideloaded_subregion", "twins_split_same_kind", "twins_split_mixed_kinds",
     "gene_intron_over_origin_shift", "gene_intron_over_origin_split",
+    "core_strand_reverse_over_origin_shift", "core_strand_reverse_over_origin_split", "core_strand_reverse",
+    "core_strand_zero_over_origin", "core_strand_none_over_origin",
 ]
 
 
